@@ -15,10 +15,38 @@ CLI_TEXTS = [
 ]
 
 
+def decl_graph_texts(tier):
+    """Every pair of mutually referring declarations A, B whose right-hand sides / field types range over all type
+    expressions of depth <= 1 over {A, B, Int64} (tuples, lambda parameter and result, Option, Array): alias cycles,
+    infinitely sized value types, recursion through every type constructor.  Semantic analysis must diagnose or accept
+    each of them; a crash of the compiler process (stack overflow included) is only observable per process."""
+    leaves = ["A", "B", "Int64"]
+    types = list(leaves)
+    for x in leaves:
+        types += ["Option[%s]" % x, "Array[%s]" % x]
+        for y in leaves:
+            types += ["(%s, %s)" % (x, y), "(%s): %s" % (x, y)]
+    kinds = [("alias", "type A = %s;\ntype B = %s;\n"),
+             ("struct", "struct A { f: %s }\nstruct B { g: %s }\n")]
+    if tier != "quick":
+        kinds += [("enum", "enum A { X(%s), Y }\nenum B { P, Q(%s) }\n"),
+                  ("class", "class A { f: %s }\nclass B { g: %s }\n"),
+                  ("alias-struct", "type A = %s;\nstruct B { g: %s }\n"),
+                  ("trait-alias", "trait T { type X; }\ntype A = %s;\nimpl T for Int64 { type X = A; }\ntype B = %s;\n")]
+    out = []
+    for kname, tmpl in kinds:
+        for t1 in types:
+            for t2 in types:
+                out.append(tmpl % (t1, t2) + "fn main() {}\n")
+    return out
+
+
 def cli_part(c, bindir, scratch, texts):
     """`dora compile -c` on erroneous inputs: failure status, diagnostics, no backtrace, no output."""
-    n = 0
-    for i, t in enumerate(texts):
+    from concurrent.futures import ThreadPoolExecutor
+
+    def run_one(item):
+        i, t = item
         src = os.path.join(scratch, "cli%d.dora" % i)
         out = os.path.join(scratch, "cli%d.dora-package" % i)
         open(src, "w").write(t)
@@ -26,10 +54,28 @@ def cli_part(c, bindir, scratch, texts):
             p = subprocess.run([os.path.join(bindir, "dora"), "compile", "-c", src, "-o", out],
                                stdout=subprocess.PIPE, stderr=subprocess.PIPE, timeout=60)
         except subprocess.TimeoutExpired:
+            try:
+                p = subprocess.run([os.path.join(bindir, "dora"), "compile", "-c", src, "-o", out],
+                                   stdout=subprocess.PIPE, stderr=subprocess.PIPE, timeout=600)
+            except subprocess.TimeoutExpired:
+                return t, out, None
+        finally:
+            pass
+        return t, out, p
+    with ThreadPoolExecutor(max_workers=vcommon.NCPU) as ex:
+        results = list(ex.map(run_one, list(enumerate(texts))))
+    n = 0
+    for t, out, p in results:
+        if p is None:
             c.violation("cli-hang", "dora compile did not terminate on %r" % t, {"text": t})
             continue
         n += 1
         err = p.stderr.decode("utf-8", "replace") + p.stdout.decode("utf-8", "replace")
+        exists = os.path.exists(out)
+        try:
+            os.remove(out)
+        except OSError:
+            pass
         if "panicked at" in err or p.returncode < 0 or p.returncode > 1:
             # attribute to the in-process panic class where possible
             head = ""
@@ -39,9 +85,9 @@ def cli_part(c, bindir, scratch, texts):
                     break
             c.violation("cli-panic:%s" % head.split(" at ")[-1].split(":")[0] if head else "cli-crash:%d" % p.returncode,
                         "dora compile crashed on %r: %s" % (t, (head or err[-200:])), {"text": t, "stderr": err[-2000:]})
-        elif p.returncode == 0 and os.path.exists(out):
+        elif p.returncode == 0 and exists:
             pass  # accepted program (the text happened to be valid)
-        elif p.returncode == 1 and os.path.exists(out):
+        elif p.returncode == 1 and exists:
             c.violation("cli-output-on-failure", "package emitted although compilation failed: %r" % t, {"text": t})
         elif p.returncode == 1 and "error" not in err.lower():
             c.violation("cli-no-diagnostic", "failure status without a readable message: %r" % t, {"text": t, "stderr": err[-500:]})
@@ -96,7 +142,8 @@ def main(tier):
                     cli_texts.append(f["example"])
             spaces.append({"cmd": rep["_cmd"].replace(scratch, "<scratch>"), "evaluations": e,
                            "counters": cn, "extra": rep["extra"]})
-        ncli = cli_part(c, bindir, scratch, cli_texts[:60])
+        decl_texts = decl_graph_texts(tier)
+        ncli = cli_part(c, bindir, scratch, cli_texts[:60] + decl_texts)
         c.coverage = {
             "evaluations": evals + ncli,
             "distinct_nontrivial": nontrivial,
@@ -104,12 +151,15 @@ def main(tier):
                     "every string over the 14-symbol delimiter alphabet up to its bound, every repository .dora file and "
                     "every single-token edit of it; semantic analysis (Sema::new + check_program on the real crates): the "
                     "same text space at a shorter bound and every repository file as a program; CLI: `dora compile -c` on "
-                    "one text per observed class. Non-trivial = text that is not accepted silently (>= 1 diagnostic), "
+                    "one text per observed class and on every pair of mutually referring alias/struct(/enum/class) declarations "
+                    "whose types range over all type expressions of depth <= 1 over {A, B, Int64} (one compiler process each, so that "
+                    "stack overflows and aborts are observed). Non-trivial = text that is not accepted silently (>= 1 diagnostic), "
                     "i.e. reaches error reporting/recovery; texts are enumerated without repetition.",
             "samples": samples,
             "exhaustive": True,
             "sema_runs": sema_runs,
             "cli_runs": ncli,
+            "declaration_graph_programs": len(decl_texts),
             "repo_files": nfiles,
             "spaces": spaces,
         }
